@@ -72,7 +72,7 @@ claim("C10",
 claim("C14",
       "[full for the integer API] int_api_total: for EVERY id, EVERY integer resolution and EVERY finite list none of deserialize, cell_to_parent, cell_to_children, get_res0_cells, get_num_cells, get_num_children (child <= 29), hex parsing, compact (no hypothesis at all: termination within fuel and absence of overflow in the sibling scan are theorems), "
       "uncompact (under the property's own bounded-result scope, stated as a sum < 2^60) returns a panic (the model keeps every checked-arithmetic / index / fuel panic of the overflow-checked build as an outcome); int_api_valid_results: ok results are canonical ids of the requested resolution; aliasing: every call on a non-canonical id equals the call on its canonical alias; "
-      "errors_exact: out-of-range resolutions are rejected, never wrapped. [partial, float-dependent] lookup_outcomes (C01): lonlat_to_cell can only end in ok, err crsVertex or the float-dependent notCCW panic; index/overflow panics are ruled out for all inputs. "
+      "errors_exact: out-of-range resolutions are rejected, never wrapped. contains_panics_iff_not_ccw (for all float values the only panic of contains_point is the failed winding test) and exact_pentagon_passes_winding (in exact arithmetic on the runtime constants the pentagon of every anchor at every scale and rotation passes it strictly). [partial, float-dependent] lookup_outcomes (C01): lonlat_to_cell can only end in ok, err crsVertex or the float-dependent notCCW panic; index/overflow panics are ruled out for all inputs. "
       "Panics, aborts and hangs of the real code are observed by the correspondence run itself: the malformed stream runs through an overflow-checked debug build AND a release build in a memory-limited child process, and every outcome class must equal the model's. "
       "The eight crash/garbage defects of the pinned release are repaired (fix: commits) and their inputs run first as a corpus.",
       "Lean 4 proof (totality of an outcome-typed model incl. termination measure) + outcome-class correspondence in debug and release builds under process isolation",
@@ -80,6 +80,7 @@ claim("C14",
 claim("C04",
       "[full] Metadata: num_cells_exact (12, then 60*4^(r-1) for r <= 27; the JavaScript-rounded literals at 28..30 differ by 40/160/360 and denote the same f64), cell_area_is_quotient (all 31 tabulated areas, as exact rationals, are within 2^-52 relative of AUTHALIC_AREA / N(r) with the exact N; "
       "the six rows that are one ulp off the correctly rounded f64 quotient are listed, not hidden), cell_area_is_table (the metadata call returns exactly the tabulated row), cells_tile_the_sphere - kernel-checked on the tables regenerated from cell_info.rs. "
+      "[full, planar half of the polygon clause, exact arithmetic on the runtime constants of Gen/Runtime.lean] planar_area_equal (the pentagon get_pentagon_vertices draws for ANY anchor has the signed area of the seed pentagon: half-turn, mirror with reversed order and translations preserve the trapezoid sum), planar_area_equal_positions (all 4^n cells of a quintant at depth n), planar_area_scale (s^2), pentagon_area_is_triangle_area (the seed's area is positive and equals half det BASIS to 2^-50, so 4^n pentagons have the area of the quintant triangle). "
       "[partial] The polygon clause (every cell's boundary encloses 4*pi/N) rests on the projection being area-preserving (C16, analytic core not proved): it is model-validated (bit-exact correspondence of cell_to_boundary) and searched with an independent area integrator on the authalic sphere: "
       "all cells r<=2 (quick) / r<=4 (thorough), cells at poles / antimeridian / dodecahedron vertex and seam latitudes at every resolution, random cells to r=29; worst relative error is reported (4e-5 after the repair of defect F14, which this search found).",
       "Lean 4 proof (decide +kernel over the regenerated metadata tables, exact rational arithmetic) + bit-exact correspondence + independent spherical-area search",
@@ -129,7 +130,8 @@ claim("C03",
 claim("C11",
       "[full, list skeleton for ALL float values] ring_length (exactly vertices*n points, 3 for quintant cells else 5, +1 when closed; default n; n = 0 behaves like 1), ring_closed (first = last; the closed ring is the open ring with its last point put in front), ring_world (every alias of the world cell gives the empty ring), ring_nonempty; "
       "corners_independent_of_n_partial (corner i sits at index i*n of the split list or its mirror image); unwrap_window / unwrap_fuel over any ordered field (result within +-180 of the centre, differs by a multiple of 360, fuel bound) with the twin tied to the Float model by rfl. "
-      "[not proved] latitude range, orientation on the sphere, centre inside the ring, the 180-degree window: searched on the implementation (independent spherical area sign and winding test) for antimeridian and polar cells at every resolution, random cells, closed/open, n in {1,2,3,5,7,16,64,default}; corner identity across n. "
+      "[full, planar, exact arithmetic on the runtime constants] planar_ring_ccw_convex_centre_inside: the pentagon of EVERY anchor, scaled by any s > 0 and transformed by any matrix of positive determinant (the quintant rotation), has positive trapezoid sum (PentagonShape::new keeps its order), is strictly convex, and get_center lies strictly inside all five edges, with explicit margins; same for the quintant triangle; getPentagonVertices_tie ties the exact pentagon to the Float model (same expression tree). "
+      "[not proved] latitude range, that the projection keeps orientation and centre-inside on the sphere, the 180-degree window: searched on the implementation (independent spherical area sign and winding test) for antimeridian and polar cells at every resolution, random cells, closed/open, n in {1,2,3,5,7,16,64,default}; corner identity across n. "
       "The search found defect F14 (polar rings degenerate at high resolution), repaired by fix e88aa12.",
       "Lean 4 proof of the list/outcome skeleton of cell_to_boundary (float values universally quantified) + bit-exact correspondence + independent ring checks",
       "DESIGN.md section 6 C11")
@@ -142,7 +144,8 @@ claim("C12",
 claim("C15",
       "[partial, small] bary_roundtrip over any field (barycentric maps are mutually inverse when the triangle is non-degenerate; coordinates sum to 1), reflected_apex_point_reflection / reflected_triangle_is_mirror / reflect_midpoint_is_edge_midpoint (the reflected chart is the mirror image of the base triangle in the face edge), "
       "triangle_index_total (index in 0..9 for EVERY Float incl. NaN / infinities), inverse_snaps_corners (the three early returns fire exactly above 1 - 1e-14); generic twins tied to the Float model by rfl. "
-      "[not proved - the largest unproved area] that the closed-form inverse undoes forward on the spherical triangle, the small-angle switches, inside/outside-the-pentagon clauses: kept as projection_roundtrip_statement (a def, assumed nowhere). "
+      "[full over R, radial half of the round trip] safe_acos_switch_value (the regenerated small-angle switch of safe_acos is the f64 nearest 1e-3), safe_acos_is_two_arcsin (the real twin of safe_acos, rfl-tied to the Float model, equals acos(1-2x^2) = 2 asin x to 1e-15 on [0,1], across the switch), radial_roundtrip (the inverse's t = safe_acos(h k)/safe_acos(k) recovers the arc length AV that the forward's h = sin(AV/2)/sin(AP/2) encodes: exactly with 2 asin, within 5e-16 rad with the two-branch safe_acos, for all 0 <= AV <= AP <= pi), radial_roundtrip_vectors (vector_difference = sin of the half angle, slerp stays on the great circle at angle t*gamma, unprojecting the forward image of a point of the arc returns it). "
+      "[not proved - the largest unproved area] the ANGULAR half (which point P of the edge BC the area ratio / atan2 formula designates), float rounding, inside/outside-the-pentagon clauses: kept as projection_roundtrip_statement (a def, assumed nowhere). "
       "Search: sphere points (uniform, on the great circle between neighbouring centres at the edge +-1e-13..1e-9, at vertices) projected relative to nearest and second-nearest face and back (worst 8e-15 rad), planar points incl. the ten internal seams / centre / edge x 12 faces; bit-exact correspondence of forward and inverse.",
       "Lean 4 proof of the algebraic skeleton (barycentric and reflection algebra over a field; totality of the triangle index) + bit-exact correspondence + round-trip search at seams",
       "DESIGN.md section 6 C15")
